@@ -53,7 +53,7 @@ def execute(case):
     try:
         raw, info = rsession.build(case["shape"], seed=case.get("seed", 0), password=case.get("password"), coder=case.get("coder", "lzma2"),
                                    header=case.get("header", "lzma"), packcrc=case.get("packcrc", False), damaged=case.get("damaged", ()),
-                                   partialcrc=case.get("partialcrc", False))
+                                   partialcrc=case.get("partialcrc", False), mixedtimes=case.get("mixedtimes", False))
         return rsession.run_calls(py7zr, raw, case["shape"], info, case["calls"], target=case.get("target", "stream"),
                                   password=case.get("password"), ending=case.get("ending", "close"), workdir=wd, damaged=case.get("damaged", ()))
     finally:
